@@ -92,6 +92,40 @@ impl MetaMonitor {
                 return;
             }
         };
+        // the file-based entry point on a path that is overwritten: a second file of the same length
+        // (one ASCII letter of the first term name changed) must be what the second load returns
+        if bytes.len() > 22 && &bytes[0..3] == b"HPO" && crate::rng::hash_bytes(&bytes) % 4 == 0 {
+            let name_len = bytes[20] as usize;
+            if name_len > 0 && bytes.len() > 21 + name_len {
+                if let Some(off) = (21..21 + name_len).find(|i| bytes[*i].is_ascii_alphabetic()) {
+                    let mut second = bytes.clone();
+                    second[off] ^= 0x20; // toggles the case of an ASCII letter
+                    let tid = u32::from_be_bytes([bytes[16], bytes[17], bytes[18], bytes[19]]);
+                    if let Some((a, b)) = drive::from_binary_twice_same_path(&bytes, &second) {
+                        bump(&mut out.events, "Ontology::from_binary (same path, new content)");
+                        out.bucket("same_path_loaded_twice_with_new_content");
+                        match (a, b) {
+                            (Ok(oa), Ok(ob)) => {
+                                let na = oa.hpo(tid).map(|t| t.name().as_bytes().to_vec());
+                                let nb = ob.hpo(tid).map(|t| t.name().as_bytes().to_vec());
+                                let ea = bytes[21..21 + name_len].to_vec();
+                                let eb = second[21..21 + name_len].to_vec();
+                                out.check(na.as_deref() == Some(&ea[..]) && nb.as_deref() == Some(&eb[..]), "C07", "from_binary_returns_earlier_file", || {
+                                    format!("term {tid}: first file holds {:?}, second file (same path, same length) holds {:?}; loaded {:?} and {:?}", String::from_utf8_lossy(&ea), String::from_utf8_lossy(&eb), na.map(|n| String::from_utf8_lossy(&n).to_string()), nb.map(|n| String::from_utf8_lossy(&n).to_string()))
+                                });
+                            }
+                            (a, b) => {
+                                for r in [a, b] {
+                                    if let Err(e) = r {
+                                        out.violate("C07", &format!("reload_rejected/{label}"), format!("from_binary(file written from as_bytes()) failed: {e}"));
+                                    }
+                                }
+                            }
+                        }
+                    }
+                }
+            }
+        }
         let after = observe::walk(&reloaded, ids, &mut out.events);
         // names above the documented limit may come back trimmed
         let mut expected = before.clone();
